@@ -1605,3 +1605,34 @@ Example C11_example_lu_solve_backward_error :
        let s := fold_left (fun s k => (s - nth k x 0 * nth (i * 3 + k) m 0)%float) (rev (seq (S i) (3 - S i))) (nth i y 0%float) in
        B2Rf s / B2Rf (nth (i * 3 + i) m 0%float) = 0 \/ / 2 ^ 1022 <= Rabs (B2Rf s / B2Rf (nth (i * 3 + i) m 0%float))).
 Proof. exact lu_solve_example. Qed.
+
+(** ** Tie A, fourth round: the [Matrix] forms of the routing predicates are the source (regenerated from
+    src/linalg/array/matrix.rs on every run by tools/tiea/compare_loops.py).  [Matrix::is_symmetric] (relative tolerance,
+    upper triangle against lower) and [Matrix::is_positive_definite] (symmetric with a positive diagonal) -- what
+    [Matrix::cholesky] and [MVN::new] assert -- read the flat vector at [i * ncols + j] / [j * nrows + i]; the models of
+    Model/Subst.v read rows.  Equal for every field values satisfying the struct invariant [nrows * ncols <= len(data)]
+    (enforced by [Matrix::new]; without it the source panics on the out-of-bounds read). *)
+From Compute Require Import Base.RsExprMore Base.RsExprFour Generated.compare_loops Proofs.TieA_compare_loops.
+Theorem C11_model_is_source_matrix_is_symmetric :
+  forall (T : Type) (O : Ops T) (m : @matrix T), (nr m * nc m <= length (dat m))%nat ->
+    src_matrix_is_symmetric O (dat m) (Z.of_nat (nr m)) (Z.of_nat (nc m)) = Some (matrix_is_symmetric O m).
+Proof. exact @tiea_matrix_is_symmetric. Qed.
+Theorem C11_model_is_source_matrix_is_positive_definite :
+  forall (T : Type) (O : Ops T) (m : @matrix T), (nr m * nc m <= length (dat m))%nat ->
+    src_matrix_is_positive_definite O (dat m) (Z.of_nat (nr m)) (Z.of_nat (nc m)) = Some (matrix_is_positive_definite O m).
+Proof. exact @tiea_matrix_is_positive_definite. Qed.
+(** [Matrix::det] ([let (lu, p) = self.lu(); lu.diag().prod() * ipiv_parity(&p) as f64]) and [Matrix::lu_det] (regenerated from
+    src/linalg/array/matrix.rs by tools/tiea/det_loops.py; [Matrix::lu] = [matrix_lu], [Vector::prod], [ipiv_parity] instantiated by
+    their models).  [det] holds for EVERY field values: the factor [Matrix::lu] returns is proved well-formed and square. *)
+From Compute Require Import Generated.det_loops Proofs.TieA_det_loops.
+Theorem C11_model_is_source_matrix_det :
+  forall (T : Type) (O : Ops T) (m : @matrix T),
+    src_matrix_det O ipiv_parity_z (matrix_lu_z O) (prod O) (dat m) (Z.of_nat (nr m)) (Z.of_nat (nc m)) = matrix_det O m.
+Proof. exact @tiea_matrix_det. Qed.
+Theorem C11_model_is_source_matrix_lu_det :
+  forall (T : Type) (O : Ops T) (m : @matrix T) (piv : list nat), well_formed m = true ->
+    src_matrix_lu_det O ipiv_parity_z (prod O) (dat m) (Z.of_nat (nr m)) (Z.of_nat (nc m)) (map Z.of_nat piv) = matrix_lu_det O m piv.
+Proof. exact @tiea_matrix_lu_det. Qed.
+Theorem C11_matrix_lu_result_well_formed :
+  forall (T : Type) (O : Ops T) (m l : @matrix T) (piv : list nat), matrix_lu O m = Some (l, piv) -> well_formed l = true /\ nr l = nc l.
+Proof. exact @matrix_lu_wf. Qed.
